@@ -579,6 +579,9 @@ def replay_spacing(p):
     a_ = p['args']
     if 'unsigned_decreasing' in ob:
         dti, vals = 3, list(a_[:3])
+    elif 'spacing_tol' in ob:
+        dti, n = a_[0], a_[1]
+        vals = list(a_[2:6])[:n]
     else:
         dti, n = a_[0], a_[1]
         vals = list(a_[2:5])[:n]
@@ -604,6 +607,22 @@ def replay_spacing(p):
         want = None if all(x == 0 for x in diffs) else True if inc else False if dec else None
         if not bad and direction is not want:
             bad = f'{INT_DT[dti]} index {vals}: direction {direction}, expected {want}'
+        if not bad and len(set(diffs)) > 1:
+            # the documented tolerance, exactly: (1 - d/median)**2 < 0.001 for every difference (a band of 1e-3 around
+            # the threshold is left to float rounding)
+            from fractions import Fraction
+            sd = sorted(diffs)
+            k = len(sd)
+            med = Fraction(sd[k // 2]) if k % 2 else Fraction(sd[k // 2 - 1] + sd[k // 2], 2)
+            if med == 0:
+                if spacing is not None:
+                    bad = f'{INT_DT[dti]} index {vals}: spacing {spacing} with a zero median difference'
+            else:
+                dev = [(1 - Fraction(x) / med) ** 2 for x in diffs]
+                if any(v > Fraction(32, 1000) ** 2 for v in dev) and spacing is not None:
+                    bad = f'{INT_DT[dti]} index {vals}: SPACING {spacing} although the differences {diffs} are not uniform within the tolerance'
+                elif all(v < Fraction(31, 1000) ** 2 for v in dev) and (spacing is None or Fraction(spacing) != med):
+                    bad = f'{INT_DT[dti]} index {vals}: spacing {spacing}, near-uniform differences {diffs} with median {med}'
     if not bad and n >= 2:
         # file level: the frame written for that index channel
         from dliswriter import DLISFile
